@@ -289,4 +289,3 @@ func TestVerifC20RaceCPRNG(t *testing.T) {
 	}
 	r.Sample(map[string]any{"goroutines": []int{2, 8, 64}, "repetitions": reps})
 }
-
